@@ -119,8 +119,13 @@ def prepare_crate(work, variant='std'):
         shutil.rmtree(kc)
     os.makedirs(kc)
     shutil.copytree(os.path.join(REPO, 'src'), os.path.join(kc, 'src'))
-    for f in ('Cargo.toml', 'Cargo.lock'):
-        shutil.copy(os.path.join(REPO, f), os.path.join(kc, f))
+    shutil.copy(os.path.join(REPO, 'Cargo.toml'), os.path.join(kc, 'Cargo.toml'))
+    # Cargo.lock is not tracked by the repository: use the working tree's if there is one, else the copy kept with the harnesses
+    # (same resolved versions as the pinned baseline), else let cargo resolve offline from the registry cache
+    for cand in (os.path.join(REPO, 'Cargo.lock'), os.path.join(ROOT, 'kani', 'Cargo.lock')):
+        if os.path.exists(cand):
+            shutil.copy(cand, os.path.join(kc, 'Cargo.lock'))
+            break
     os.makedirs(os.path.join(kc, '.cargo'))
     open(os.path.join(kc, '.cargo', 'config.toml'), 'w').write('[net]\noffline = true\n')
     frs = _fragments(variant)
